@@ -1,0 +1,26 @@
+//go:build verif
+
+// Contracts for the acv verifier (/verif). Comment-only file: no executable code.
+
+package lru
+
+// Lock discipline (the thread-local half of the lock-invariant argument): every call that mutates the underlying
+// groupcache list - Add, Clear and also Get, which moves the entry to the front - is made while holding the
+// exclusive lock, and the lock is released on every path.
+//@ func (cache *Cache) Get(keyID string) (value []byte, ok bool)
+//@   props C17
+//@   ensures released: called(RWMutex.Unlock)
+//@   at call lru.Cache.Get : assert called(RWMutex.Lock) && !called(RWMutex.Unlock) && recv == cache.lru
+//@   precedes RWMutex.Lock RWMutex.Unlock
+
+//@ func (cache *Cache) Add(keyID string, keyValue []byte)
+//@   props C17
+//@   ensures released: called(RWMutex.Unlock)
+//@   at call lru.Cache.Add : assert called(RWMutex.Lock) && !called(RWMutex.Unlock) && recv == cache.lru
+//@   precedes RWMutex.Lock RWMutex.Unlock
+
+//@ func (cache *Cache) Clear()
+//@   props C17
+//@   ensures released: called(RWMutex.Unlock)
+//@   at call lru.Cache.Clear : assert called(RWMutex.Lock) && !called(RWMutex.Unlock) && recv == cache.lru
+//@   precedes RWMutex.Lock RWMutex.Unlock
